@@ -8,10 +8,49 @@ SCALARS = ["n", "k", "t", "s0", "d_i", "d1_i", "d2_i", "d_i_1"]
 ARR1 = ["a", "b", "c", "idx"]
 ARR2 = ["m"]
 
-HEADER = ["program p",
-          "  integer :: " + ", ".join(SCALARS + ["i", "j", "l", "ii", "jj"]),
-          f"  integer, dimension({minif.A_LO}:{minif.A_HI}) :: " + ", ".join(ARR1),
-          f"  integer, dimension({minif.M_LO}:{minif.M_HI},{minif.M_LO}:{minif.M_HI}) :: m"]
+# structure members (signatures `name%member`): scalar members, a member array, an array of structures; `d%i` is the
+# member whose SymPy name is `d_i`, the first candidate of the fresh-name loop of `_get_dependency_distance`
+MEMBER_SCALARS = ["cfg%off", "cfg%n2", "g%off", "g%n2", "d%i"]
+MEMBER_ARR1 = ["cfg%a", "g%a", "pp%x", "pp%y", "qq%x"]      # written `cfg%a(s)` / `pp(s)%x`
+# (the frontend resolves a derived type only with one component per statement and bounds without a unary minus)
+TYPES = [f"  integer, parameter :: alo = {minif.A_LO}",
+         "  type :: cfg_t",
+         "    integer :: off",
+         "    integer :: n2",
+         "    integer :: i",
+         f"    integer, dimension(alo:{minif.A_HI}) :: a",
+         "  end type cfg_t",
+         "  type :: pt_t",
+         "    integer :: x",
+         "    integer :: y",
+         "  end type pt_t"]
+
+HEADER0 = ["program p",
+           "  integer :: " + ", ".join(SCALARS + ["i", "j", "l", "ii", "jj"]),
+           f"  integer, dimension({minif.A_LO}:{minif.A_HI}) :: " + ", ".join(ARR1),
+           f"  integer, dimension({minif.M_LO}:{minif.M_HI},{minif.M_LO}:{minif.M_HI}) :: m"]
+HEADER = HEADER0        # programs without structures (corpus files carry their own text)
+HEADER_S = ([HEADER0[0]] + TYPES + HEADER0[1:] +
+            ["  type(cfg_t) :: cfg, g, d", f"  type(pt_t), dimension(alo:{minif.A_HI}) :: pp, qq"])
+
+
+def fmt(arr, sub):
+    """text of element `sub` of the array signature `arr`: a(s), cfg%a(s), pp(s)%x"""
+    if "%" not in arr:
+        return f"{arr}({sub})"
+    base, mem = arr.split("%")
+    return f"{base}%{mem}({sub})" if base in ("cfg", "g") else f"{base}({sub})%{mem}"
+
+
+def gen_init_s(rng, dvals=(0, 1, 2)):
+    """init block of a program with structures: `gen_init` + values for all members"""
+    out = gen_init(rng, dvals)
+    out += [f"  cfg%off = {rng.randint(0, 3)}", f"  cfg%n2 = {rng.randint(0, 3)}", f"  g%off = {rng.randint(0, 3)}",
+            f"  g%n2 = {rng.randint(0, 3)}", f"  d%i = {rng.choice(list(dvals))}"]
+    for arr in MEMBER_ARR1:
+        kk, cc, mm = rng.randint(1, 7), rng.randint(0, 9), rng.choice([2, 3, 5])
+        out += [f"  do ii = {minif.A_LO}, {minif.A_HI}", f"    {fmt(arr, 'ii')} = mod(ii * {kk} + {cc}, {mm})", "  enddo"]
+    return out
 
 
 def gen_init(rng, dvals=(0, 1, 2)):
@@ -44,6 +83,9 @@ INNER = ["j", "j+1", "i+j", "2*j", "j+n", "i+j+1", "i-j"]
 STALE = ["i+t", "t", "i+s0", "t+1"]
 SYMCOEF = ["n*i", "i*n", "n*i+1", "n*i+k", "2*n*i", "n*(i+1)", "(n+1)*i", "k*i+n", "n*i+i", "i*i", "i**2", "n*k*i",
            "i*k", "n*k+i", "n*k"]
+MEMBER = ["i+cfg%off", "i+cfg%off", "cfg%off", "i+cfg%n2", "i+g%off", "i+cfg%off+cfg%n2", "i+d%i", "i+d%i+d_i", "2*i+cfg%off",
+          "pp(i)%x", "i+pp(i)%x", "i+pp(3)%x", "cfg%a(i)", "i+cfg%a(3)", "i+cfg%a(i)", "i+pp(i)%y", "i+cfg%off*2", "i-cfg%n2",
+          "i+qq(n)%x"]
 SUB2 = [("i", "j"), ("j", "i"), ("i", "3"), ("3", "i"), ("i", "i"), ("i", "i+1"), ("i+1", "i"), ("i+j", "j"),
         ("i+j", "i"), ("i+j", "2"), ("i+j", "idx(j)"), ("i", "k"), ("k", "i+j"), ("i+1", "4"), ("n", "i"),
         ("i", "j+1"), ("j+1", "i"), ("i+1", "j"), ("i+j", "mod(j, 2)"), ("i", "n"), ("2*i", "j"), ("i+j", "j-j+1"),
@@ -56,8 +98,10 @@ class LoopGen:
     def __init__(self, rng, flavour=None):
         self.rng = rng
         self.flavour = flavour or rng.choice(["affine", "affine", "div", "mod", "idx", "dnames", "nest", "scalar",
-                                              "scalar", "stale", "mixed", "mixed", "dside", "dside", "symcoef"])
-        self.nest = self.flavour == "nest" or (self.flavour in ("mixed", "scalar") and rng.random() < 0.3)
+                                              "scalar", "stale", "mixed", "mixed", "dside", "dside", "symcoef",
+                                              "member", "member", "member"])
+        self.nest = self.flavour == "nest" or (self.flavour in ("mixed", "scalar", "member") and rng.random() < 0.3)
+        self.structs = self.flavour == "member"
 
     def pool(self, inner):
         f = self.flavour
@@ -74,6 +118,8 @@ class LoopGen:
             p += STALE * 3
         elif f == "symcoef":
             p += SYMCOEF * 2
+        elif f == "member":
+            p += MEMBER * 2
         elif f == "mixed":
             p += DIV + MOD + IDX + DNAMES[:3] + CONST + SYMCOEF[:6]
         if inner:
@@ -91,37 +137,39 @@ class LoopGen:
             s = r.choice(SUB2 if inner else [s for s in SUB2 if "j" not in s[0] + s[1]])
             return f"m({s[0]}, {s[1]})"
         if same is not None and r.random() < 0.55:
-            return f"{arr}({same})"
-        return f"{arr}({self.sub(inner)})"
+            return fmt(arr, same)
+        return fmt(arr, self.sub(inner))
 
     def array_stmt(self, inner, ind):
         r = self.rng
         arr = r.choice(["a", "a", "a", "b", "m", "idx"] if self.flavour != "idx" else ["a", "a", "b", "m"])
+        if self.structs and r.random() < 0.5:
+            arr = r.choice(MEMBER_ARR1)
         if arr == "m":
             s = r.choice(SUB2 if inner else [s for s in SUB2 if "j" not in s[0] + s[1]])
             lhs, same = f"m({s[0]}, {s[1]})", s
         else:
             same = self.sub(inner)
-            while arr in same:                   # `idx(idx(i)) = ...` is refused by PSyclone (NotImplementedError)
+            while arr.split("%")[0] in same:     # `idx(idx(i)) = ...` is refused by PSyclone (NotImplementedError)
                 same = self.sub(inner)
-            lhs = f"{arr}({same})"
+            lhs = fmt(arr, same)
         terms = []
         for _ in range(r.randint(0, 2)):
             x = r.random()
             if x < 0.5:
                 terms.append(self.ref(arr, inner, same))
             elif x < 0.8:
-                other = r.choice([q for q in ["a", "b", "c"] if q != arr])
+                other = r.choice([q for q in ["a", "b", "c"] + (MEMBER_ARR1 if self.structs else []) if q != arr])
                 terms.append(self.ref(other, inner))
             else:
-                terms.append(r.choice(["n", "k", "t", "s0", "1", "2"]))
+                terms.append(r.choice(["n", "k", "t", "s0", "1", "2"] + (MEMBER_SCALARS if self.structs else [])))
         if not terms:
             terms = [r.choice(["1", "c(i)", "n"])]
         return [f"{ind}{lhs} = " + " + ".join(terms)]
 
     def scalar_block(self, inner, ind):
         r = self.rng
-        s = r.choice(["t", "t", "s0"])
+        s = r.choice(["t", "t", "s0"] if not self.structs else ["t", "cfg%off", "cfg%off", "cfg%n2", "g%off", "d%i"])
         cond = f"b(i) > {r.randint(0, 6)}"
         kind = r.choice(["priv", "priv", "condwrite", "condwrite", "both", "reduction", "readfirst", "once", "readonly",
                          "condall", "condonce", "privuse"])
@@ -191,6 +239,16 @@ class LoopGen:
             if self.flavour == "stale" and r.random() < 0.5:
                 s = r.choice(["t", "s0"])
                 out += [f"{ind}{s} = b(i)", f"{ind}a(i+{s}) = 1" if r.random() < 0.6 else f"{ind}a(i+{s}) = a(i+{s}) + c(i)"]
+            elif self.structs and x < 0.35:
+                # a member (scalar, element of a member array, member of an array element) recomputed in the loop,
+                # or one of its siblings / namesakes, and a member used in the subscript of some array signature
+                wr = r.choice(MEMBER_SCALARS + ["pp(i)%x", "cfg%a(i)", "t"])
+                us = wr if r.random() < 0.6 else r.choice(MEMBER_SCALARS + ["pp(i)%x", "pp(i)%y", "cfg%a(i)", "g%a(i)"])
+                arr = r.choice(["a", "a", "b"] + MEMBER_ARR1)
+                while arr.split("%")[0] in us + wr:
+                    arr = r.choice(["a", "b"])
+                el = fmt(arr, f"i+{us}")
+                out += [f"{ind}{wr} = b(i)", f"{ind}{el} = 1" if r.random() < 0.6 else f"{ind}{el} = {el} + c(i)"]
             elif (self.flavour == "scalar" and x < 0.7) or x < 0.12:
                 out += self.scalar_block(inner, ind)
             elif x < 0.22:
@@ -306,7 +364,58 @@ def free2_family():
     return out
 
 
-def wrap_loop(rng, loop_lines):
+# ---- systematic family: a structure member (or a plain scalar, as control) used in a subscript, and what the loop
+# ---- modifies: the same signature, a sibling member (same base name), a namesake (same member of another
+# ---- structure), or nothing
+MEM_CASES = [  # used in the subscript, {relation: reference the loop assigns}
+    ("cfg%off", {"same": "cfg%off", "sibling": "cfg%n2", "namesake": "g%off"}),
+    ("d%i", {"same": "d%i", "sibling": "d%off", "namesake": "cfg%i"}),
+    ("pp(i)%x", {"same": "pp(i)%x", "sibling": "pp(i)%y", "namesake": "qq(i)%x"}),
+    ("cfg%a(i)", {"same": "cfg%a(i)", "sibling": "cfg%off", "namesake": "g%a(i)"}),
+    ("cfg%a(3)", {"same": "cfg%a(i)", "sibling": "cfg%n2", "namesake": "g%a(3)"}),
+    ("t", {"same": "t", "sibling": "s0", "namesake": "d_i"})]
+MEM_TARGETS = ["a", "g%a", "qq%y", "m"]
+
+
+def _sig_of(ref):
+    """`pp(i)%x` -> `pp%x`"""
+    import re as _re
+    return _re.sub(r"\([^()]*\)", "", ref)
+
+
+def member_loop(used, written, target, kind, pos):
+    sub = f"i+{used}"
+    el = f"m({sub}, 3)" if target == "m" else fmt(target, sub)
+    use = [f"{el} = 1"] if kind == "write" else [f"{el} = {el} + 1"]
+    if written is None:
+        body = use
+    elif pos == "before":
+        body = [f"{written} = mod(i+1, 2)", f"c(i) = {written}"] + use
+    elif pos == "cond":
+        body = [f"if (b(i) >= 0) then", f"  {written} = mod(i+1, 2)", "endif"] + use
+    else:
+        body = use + [f"{written} = mod(i+1, 2)", f"c(i) = {written}"]
+    return ["do i = 0, 5"] + ["  " + b for b in body] + ["enddo"]
+
+
+def member_family():
+    """(name, loop lines) for all used x relation x target x write/update x position of the assignment"""
+    out = []
+    for used, rel in MEM_CASES:
+        for rname, written in list(rel.items()) + [("none", None)]:
+            for target in MEM_TARGETS:
+                if _sig_of(target) in (_sig_of(used), _sig_of(written or "")):
+                    continue
+                for kind in ("write", "update"):
+                    for pos in (("before", "after", "cond") if written else ("-",)):
+                        out.append((f"member-{used}-{rname}-{target}-{kind}-{pos}",
+                                    member_loop(used, written, target, kind, pos)))
+    return out
+
+
+def wrap_loop(rng, loop_lines, structs=False):
+    if structs:
+        return "\n".join(HEADER_S + gen_init_s(rng) + ["  " + ln for ln in loop_lines] + ["end program p"]) + "\n"
     return "\n".join(HEADER + gen_init(rng) + ["  " + ln for ln in loop_lines] + ["end program p"]) + "\n"
 
 
@@ -322,6 +431,8 @@ def gen_source(rng, flavour=None):
                            rng.choice(("read", "write2")), rng.choice((2, 3, 4, 5)))
         return wrap_loop(rng, lines), "free2"
     g = LoopGen(rng, flavour)
+    if g.structs:
+        return "\n".join(HEADER_S + gen_init_s(rng) + g.loop() + ["end program p"]) + "\n", g.flavour
     init = gen_init(rng, (1, -1, 2) if g.flavour == "dside" else (0, 1, 2))
     if g.flavour == "symcoef":          # both sides of the coefficient being zero
         init += [f"  n = {rng.choice((0, 0, 1, 2))}", f"  k = {rng.choice((0, 1, 1, 3))}"]
@@ -340,11 +451,136 @@ def analysed_loop(routine):
     raise ValueError("no loop over i")
 
 
+class SigNames(minif.Names):
+    """id table over SIGNATURES (`cfg%off`, `pp%x`, plain names) + the table id -> (base name, member path) with
+    its own numbering of component names"""
+
+    def __init__(self):
+        super().__init__()
+        self.comp = {}
+        self.sigs = {}
+
+    def cid(self, name):
+        return self.comp.setdefault(name.lower(), len(self.comp))
+
+    def id(self, name):
+        name = name.lower()
+        ident = super().id(name)
+        if ident not in self.sigs:
+            parts = name.split("%")
+            self.sigs[ident] = [self.cid(parts[0])] + [self.cid(q) for q in parts[1:]]
+        return ident
+
+    def sigtab(self):
+        return [[ident] + sig for ident, sig in sorted(self.sigs.items())]
+
+
+def _ref_parts(node, names):
+    """(signature id, flattened subscript nodes) of any Reference"""
+    from psyclone.psyir import nodes as N
+    from psyclone.psyir.symbols import DataSymbol, ArrayType, ScalarType
+    sig, indices = node.get_signature_and_indices()
+    flat = [ix for comp in indices for ix in comp]
+    if any(isinstance(ix, N.Range) for ix in flat) or len(flat) > 2:
+        raise minif.Unsupported("array access " + str(sig))
+    if type(node) is N.Reference:
+        sym = node.symbol
+        if not (isinstance(sym, DataSymbol) and isinstance(sym.datatype, ScalarType)):
+            raise minif.Unsupported("whole array / structure " + node.name)      # `a = 0`, `cfg = g`
+    elif isinstance(node, N.StructureReference):
+        # every component on the path is subscripted iff it is an array, and the innermost one is a scalar
+        # (resolved by hand: `node.datatype` is Unresolved as soon as a subscript is an operation)
+        from psyclone.psyir.symbols import DataTypeSymbol, StructureType
+        from psyclone.psyir.nodes.array_mixin import ArrayMixin
+        dt = node.symbol.datatype if isinstance(node.symbol, DataSymbol) else None
+        cur = node
+        while True:
+            has_idx = isinstance(cur, ArrayMixin)
+            if isinstance(dt, ArrayType):
+                if not has_idx or len(cur.indices) != len(dt.shape):
+                    raise minif.Unsupported("whole array component " + str(sig))
+                dt = dt.intrinsic if isinstance(dt.intrinsic, DataTypeSymbol) else ScalarType(dt.intrinsic, dt.precision)
+            elif has_idx:
+                raise minif.Unsupported("unresolved component " + str(sig))
+            if not hasattr(cur, "member"):
+                break
+            if isinstance(dt, DataTypeSymbol):
+                dt = dt.datatype
+            if not isinstance(dt, StructureType) or cur.member.name not in dt.components:
+                raise minif.Unsupported("unresolved structure type of " + str(sig))
+            dt = dt.components[cur.member.name].datatype
+            cur = cur.member
+        if not isinstance(dt, ScalarType):
+            raise minif.Unsupported("member that is not a scalar element: " + str(sig))
+    elif not isinstance(node, N.ArrayReference):
+        raise minif.Unsupported(type(node).__name__)
+    return names.id(str(sig)), flat
+
+
+def export_expr(node, names):
+    """`minif.export_expr` extended to structure members (signature ids)"""
+    from psyclone.psyir import nodes as N
+    if isinstance(node, N.IntrinsicCall):
+        name = node.intrinsic.name.upper()
+        args = [export_expr(a, names) for a in node.arguments]
+        if name in minif._INTR2 and len(args) >= 2 and (name in ("MIN", "MAX") or len(args) == 2):
+            out = args[0]
+            for a in args[1:]:
+                out = ["bin", minif._INTR2[name], out, a]
+            return out
+        if name == "ABS" and len(args) == 1:
+            return ["un", "abs", args[0]]
+        if name in minif._IDENT and len(args) == 1:
+            return args[0]
+        raise minif.Unsupported("intrinsic " + name)
+    if isinstance(node, N.BinaryOperation):
+        op = node.operator.name
+        if op not in minif._BIN:
+            raise minif.Unsupported("operator " + op)
+        return ["bin", minif._BIN[op], export_expr(node.children[0], names), export_expr(node.children[1], names)]
+    if isinstance(node, N.UnaryOperation):
+        op = node.operator.name
+        if op not in minif._UN:
+            raise minif.Unsupported("operator " + op)
+        return ["un", minif._UN[op], export_expr(node.children[0], names)]
+    if isinstance(node, N.Reference):
+        ident, flat = _ref_parts(node, names)
+        if not flat:
+            return ["var", ident]
+        return [f"idx{len(flat)}", ident] + [export_expr(ix, names) for ix in flat]
+    return minif.export_expr(node, names)          # literals; everything else is refused there
+
+
+def export_stmt(node, names):
+    """`minif.export_stmt` extended to structure members"""
+    from psyclone.psyir import nodes as N
+    if isinstance(node, (list, tuple)):
+        return ["seqs"] + [export_stmt(c, names) for c in node]
+    if isinstance(node, N.Schedule):
+        return export_stmt(list(node.children), names)
+    if isinstance(node, N.Assignment):
+        rhs = export_expr(node.rhs, names)
+        if not isinstance(node.lhs, N.Reference):
+            raise minif.Unsupported("lhs " + type(node.lhs).__name__)
+        ident, flat = _ref_parts(node.lhs, names)
+        if not flat:
+            return ["assign", ident, rhs]
+        return [f"store{len(flat)}", ident] + [export_expr(ix, names) for ix in flat] + [rhs]
+    if isinstance(node, N.IfBlock):
+        els = export_stmt(node.else_body, names) if node.else_body is not None else ["skip"]
+        return ["ite", export_expr(node.condition, names), export_stmt(node.if_body, names), els]
+    if isinstance(node, N.Loop):
+        return ["loop", names.id(node.variable.name), export_expr(node.start_expr, names),
+                export_expr(node.stop_expr, names), export_expr(node.step_expr, names),
+                export_stmt(node.loop_body, names)]
+    raise minif.Unsupported(type(node).__name__)      # WHILE loops, calls, code blocks: outside the modelled subset
+
+
 def export_case(src):
     """source → dict(prefix, loop, dnames, names) (MiniF nested lists) and the PSyIR loop"""
     psyir, routine = minif.parse_program(src)
     loop = analysed_loop(routine)
-    names = minif.Names()
+    names = SigNames()
     pre = []
     for ch in routine.children:
         if ch is loop:
@@ -352,17 +588,20 @@ def export_case(src):
         pre.append(ch)
     if loop.parent is not routine:
         raise minif.Unsupported("analysed loop is not at the top level of the routine")
-    prefix = minif.export_stmt(pre, names)
-    lp = minif.export_stmt(loop, names)
+    prefix = export_stmt(pre, names)
+    lp = export_stmt(loop, names)
     var = loop.variable.name.lower()
     dn = []
     for nm, ident in names.table().items():
-        mt = D_RE.match(nm)
+        # the key of the SymPy type map: a member `d%i` is written `d_i` (made unique with a numeric suffix when
+        # that name is taken; any fresh candidate gives the same verdict in the fixed name loop)
+        mt = D_RE.match(nm.replace("%", "_"))
         if mt and mt.group(2) == var:
             dn.append([ident, int(mt.group(1)) if mt.group(1) else 0])
-    order = [ident for _, ident in sorted(names.table().items())]       # ids in the order of the sorted signatures
+    # ids in the order of the sorted signatures (`Signature` orders by the tuple of component names)
+    order = [ident for _, ident in sorted(names.table().items(), key=lambda kv: tuple(kv[0].split("%")))]
     return {"prefix": prefix, "loop": lp, "dnames": dn, "names": names.table(), "order": order,
-            "namesobj": names}, loop
+            "namesobj": names, "sigtab": names.sigtab()}, loop
 
 
 # ---- classifiers of the known findings (on the exported MiniF loop) ----------
